@@ -250,6 +250,45 @@ def run_special(ctx):
             expect('keyword after setting the number of cycles', case, kw, toks[0])
             terms.append('let l := ls_set_number (ls_parse %s) 7 in let \'(a, b, c) := ls_denote l in Z.eqb a %s && Z.eqb b %s && Z.eqb c %s' % (
                 clist([cz(v) for v in nums]), cz(den[0]), cz(den[1]), cz(den[2])))
+    # set() with fewer parameters than the instruction had: what is left out is the documented default (or "not given"), not the old value
+    for kw, names in ATTRS.items():
+        lo, hi, words, sfx, _ = rf.SYNTAX[kw]
+        if sfx or words or hi < 2 or kw in ('AFIX', 'STIR', 'NCSY', 'DANG', 'DFIX', 'SUMP'):
+            continue
+        full = [1.25 + 0.5 * i for i in range(min(hi, len(names)))]
+        if kw in rf.INT_KW:
+            full = [3 + i for i in range(len(full))]
+        text, status, inner, shx, pos = read(kw + ' ' + ' '.join(str(v) for v in full))
+        obj = find_object(shx, pos)
+        if status != 'ok' or inner or obj is None or not hasattr(obj, 'set'):
+            continue
+        first = 7 if kw in rf.INT_KW else 0.75
+        try:
+            obj.set('%s %s' % (kw, first))
+        except Exception as ex:
+            common.add_violation(ctx, 'set() raises', {'instruction': '%s -> set(%s %s)' % (kw, kw, first), 'text': text}, 'no exception', repr(ex))
+            continue
+        dfl = list(defaults_of(kw))
+        case = {'instruction': '%s %s -> set(%s %s)' % (kw, ' '.join(str(v) for v in full), kw, first), 'text': text}
+        got = [value_of(obj, nm) for nm in names]
+        ev += 1
+        if not same(first, got[0]):
+            common.add_violation(ctx, 'the parameter given to set() is not reported', dict(case, attribute=names[0]), first, None if got[0] is NOT_GIVEN else got[0])
+        for i in range(1, len(names)):
+            d_ = dfl[i] if i < len(dfl) and dfl[i] is not None else NOT_GIVEN
+            if got[i] is NOT_GIVEN or same(d_, got[i]):
+                continue
+            common.add_violation(ctx, 'a parameter left out in set() is reported with the old value instead of its documented default',
+                                 dict(case, attribute=names[i]), None if d_ is NOT_GIVEN else d_, got[i])
+    text, status, inner, shx, pos = read('REM x')
+    h_lines = HEAD + ATOMS + ['HKLF 4 0.5 0 1 0 1 0 0 0 0 -1 2 3', 'END']
+    st_, in_, shx_h = im.read_text('\n'.join(h_lines) + '\n', 'quiet')
+    if shx_h.hklf is not None:
+        shx_h.hklf.set('HKLF 4')
+        hcase = {'instruction': 'HKLF 4 0.5 0 1 0 1 0 0 0 0 -1 2 3 -> set(HKLF 4)', 'text': '\n'.join(h_lines)}
+        expect('HKLF S after set(HKLF 4)', hcase, 1, shx_h.hklf.s)
+        expect('HKLF matrix after set(HKLF 4)', hcase, [1, 0, 0, 0, 1, 0, 0, 0, 1], list(shx_h.hklf.matrix))
+        expect('HKLF sm, m after set(HKLF 4)', hcase, [1, 0], [shx_h.hklf.sm, shx_h.hklf.m])
     # generic setter Command.set and update_weight
     text, status, inner, shx, pos = read('PLAN 20')
     shx.plan.set('PLAN 35 1.5 2.5')
